@@ -109,6 +109,7 @@ class Ctx:
             self.ax = Axioms()
             self.ax.extra_rules = list((opts or {}).get("extra_rules", []))
             self.ax.fuel = (opts or {}).get("fuel", 1)
+            self.ax.no_concat_law = bool((opts or {}).get("no_concat_law"))
             self.ax_inst = []
             self.solver = AbsSolver((opts or {}).get("feas_ms", FEAS_TIMEOUT_MS), nla=(opts or {}).get("nla", True))
         self.obligs = []
